@@ -149,6 +149,15 @@ def _init_worker(modname):
     _PROP = importlib.import_module(modname)
 
 
+def _call_named(arg):
+    """used by explorers that drive the pool themselves (E2/E4): arg = (function name, argument)"""
+    fname, a = arg
+    try:
+        return getattr(_PROP, fname)(a)
+    except BaseException as e:
+        return {"harness_error": f"{type(e).__name__}: {e}\n{traceback.format_exc()}", "task": repr(arg)[:300]}
+
+
 def _work(task):
     t0 = time.time()
     try:
@@ -165,12 +174,13 @@ def run_property(prop_id, tier, seed, workers=None):
     t0 = time.time()
     modname = f"mc.props.{prop_id.lower()}"
     mod = importlib.import_module(modname)
-    tasks = list(mod.tasks(tier))
+    custom = hasattr(mod, "explore")
+    tasks = [] if custom else list(mod.tasks(tier))
     n = len(tasks)
     if n and seed:
         r = seed % n
         tasks = tasks[r:] + tasks[:r]     # VERIF_SEED only rotates the visiting order; the explored set is fixed
-    workers = workers or min(16, os.cpu_count() or 1, max(1, n))
+    workers = workers or (min(16, os.cpu_count() or 1) if custom else min(16, os.cpu_count() or 1, max(1, n)))
     merged = {"states": 0, "transitions": 0, "validated": 0, "nontrivial": 0, "new_count": 0}
     outcomes = set(); new = []; known_hits = Counter(); samples = []; algos = Counter(); notes = Counter()
     scopes = {}; new_groups = Counter()
@@ -184,10 +194,17 @@ def run_property(prop_id, tier, seed, workers=None):
         ctx = mp.get_context("fork")
         pool = ctx.Pool(workers, initializer=_init_worker, initargs=(modname,))
         it = pool.imap_unordered(_work, tasks, chunksize=1)
+    if custom:
+        if pool is None:
+            pmap = lambda fname, args: [_call_named((fname, a)) for a in args]
+        else:
+            pmap = lambda fname, args: pool.map(_call_named, [(fname, a) for a in args], chunksize=1)
+        it = mod.explore(tier, seed, pmap)
     try:
         for r in it:
             if "harness_error" in r:
                 errors.append(r); continue
+            r.setdefault("task_s", 0.0)
             for key in ("states", "transitions", "validated", "nontrivial", "new_count"):
                 merged[key] += r[key]
             if len(outcomes) < 200000:
@@ -258,6 +275,7 @@ def run_property(prop_id, tier, seed, workers=None):
         "exhaustive": True,
         "bounds": getattr(mod, "bounds", lambda t: {})(tier),
         "scopes": scopes, "tasks": n, "workers": workers,
+        "explorer": getattr(mod, "EXPLORER_STATS", None),
         "per_algorithm_executions": dict(sorted(algos.items())),
         "observed_outcomes": len(outcomes),
         "observations": dict(sorted(notes.items())),
